@@ -16,6 +16,11 @@ def wiring(rng, p, nvals):
     return [rng.choice(regs) for _ in range(4)]
 
 
+def konst(rng, x, prob=5):
+    """with probability 1/prob replace an operand by one of the composer's built-in constant witnesses (handles #0 / #1)"""
+    return rng.choice(["#0", "#1"]) if rng.coin(1, prob) else x
+
+
 def gen_gate(rng, sat_bias=True):
     p = Prog(); p.tags = ["gate"]
     q = [coeff_value(rng) for _ in range(6)]
@@ -23,7 +28,9 @@ def gen_gate(rng, sat_bias=True):
     shared = rng.coin(1, 3)
     if shared:
         a, b, c, d = wiring(rng, p, rng.choice([1, 2, 3]))
+        a, b, c, d = konst(rng, a, 6), konst(rng, b, 6), konst(rng, c, 6), konst(rng, d, 6)
         p.tags.append("gate-shared-wires")
+        if any(isinstance(x, str) for x in (a, b, c, d)): p.tags.append("constant-handle-operand")
     else:
         a, b, d = p.w(boundary_value(rng)), p.w(boundary_value(rng)), p.w(boundary_value(rng))
         qm, ql, qr, qo, qf, qc = q
@@ -61,6 +68,8 @@ def gen_evalout(rng):
     a, b, d = p.w(boundary_value(rng)), p.w(boundary_value(rng)), p.w(boundary_value(rng))
     if rng.coin(1, 4):
         b = a
+    a, b, d = konst(rng, a, 6), konst(rng, b, 6), konst(rng, d, 6)
+    if any(isinstance(x, str) for x in (a, b, d)): p.tags.append("constant-handle-operand")
     o = p.evalout(q, pi, a, b, d)
     if q[3] % R != 0 and rng.coin(1, 2):
         p.setw(o, (p.val(o) + 1 + rng.below(5)) % R); p.unsat(); p.tags.append("forged-output")
@@ -76,6 +85,8 @@ def gen_gaddmul(rng):
     if k < 2: b = a; p.tags.append("shared-handles")
     elif k == 2: d = a; p.tags.append("shared-handles")
     elif k == 3: b = a; d = a; p.tags.append("shared-handles")
+    a, b, d = konst(rng, a, 6), konst(rng, b, 6), konst(rng, d, 6)
+    if any(isinstance(x, str) for x in (a, b, d)): p.tags.append("constant-handle-operand")
     o = p.gadd(q5, pi, a, b, d, name)
     if rng.coin(1, 2):
         p.setw(o, (p.val(o) + 1 + rng.below(7)) % R); p.unsat(); p.tags.append("forged-output")
@@ -87,6 +98,16 @@ def gen_eq(rng):
     va = boundary_value(rng)
     a = p.w(va)
     k = rng.below(4)
+    if rng.coin(1, 5):
+        p.tags.append("constant-handle-operand")
+        kk_ = rng.choice(["#0", "#1"])
+        if rng.coin():
+            a = p.w(rng.choice([0, 1, va])); p.aeq(*((a, kk_) if rng.coin() else (kk_, a)))
+        else:
+            p.tags = ["assert_equal_constant", "constant-handle-operand"]
+            pi = coeff_value(rng) if rng.coin() else None
+            p.aeqc(kk_, rng.choice([0, 1, (p.val(kk_) - (pi or 0)) % R]), pi)
+        return p
     if k == 0:
         b = p.w(va); p.aeq(a, b)
     elif k == 1:
@@ -116,6 +137,9 @@ def gen_constpub(rng):
 def gen_bool(rng):
     p = Prog(); p.tags = ["component_boolean"]
     v = rng.choice([0, 1, 0, 1, 2, R - 1, boundary_value(rng)])
+    if rng.coin(1, 6):
+        p.tags.append("constant-handle-operand"); p.boolean(rng.choice(["#0", "#1"]))
+        return p
     p.boolean(p.w(v))
     return p
 
@@ -128,6 +152,14 @@ def gen_select(rng):
     if k == 0: b = a
     elif k == 1: a = bit
     elif k == 2: a = bit; b = bit
+    # the composer's constant witnesses #0 / #1 in every operand position (a "fast path" keyed on a constant handle)
+    k = rng.below(10)
+    if k == 0: a = rng.choice(["#0", "#1"])
+    elif k == 1: b = rng.choice(["#0", "#1"])
+    elif k == 2: bit = rng.choice(["#0", "#1"])
+    elif k == 3: a = rng.choice(["#0", "#1"]); b = rng.choice(["#0", "#1"])
+    elif k == 4: a = rng.choice(["#0", "#1"]); bit = rng.choice(["#0", "#1"])
+    if any(isinstance(x, str) for x in (bit, a, b)): p.tags.append("constant-handle-operand")
     k = rng.below(3)
     if k == 0:
         p.tags = ["component_select"]; o = p.sel(bit, a, b)
@@ -145,8 +177,31 @@ def gen_select(rng):
 GENS = [gen_gate, gen_gate, gen_evalout, gen_gaddmul, gen_eq, gen_constpub, gen_bool, gen_select, gen_select]
 
 
-def cases(rng, n):
+def constant_operand_cases(rng):
+    """systematic: each selection / arithmetic component with the constant handles #0 / #1 in every operand position,
+    for bit values 0 and 1 (honest output, and a forged output)"""
     out = []
+    for comp in ("sel", "sel1", "sel0", "gadd", "gmul"):
+        npos = {"sel": 3, "sel1": 2, "sel0": 2, "gadd": 3, "gmul": 3}[comp]
+        for pos in range(npos):
+            for kh in ("#0", "#1"):
+                for bitv in (0, 1):
+                    for forged in (False, True):
+                        p = Prog(); p.tags = ["component_select" if comp == "sel" else comp, "constant-handle-operand", "systematic"]
+                        ops = [p.w(bitv)] + [p.w(rng.choice([2, 5, rng.fe()])) for _ in range(npos - 1)]
+                        ops[pos] = kh
+                        if comp == "sel": o = p.sel(*ops)
+                        elif comp == "sel1": o = p.sel1(*ops)
+                        elif comp == "sel0": o = p.sel0(*ops)
+                        else: o = p.gadd([coeff_value(rng) for _ in range(5)], None, ops[0], ops[1], ops[2], comp)
+                        if forged:
+                            p.setw(o, (p.val(o) + 1 + rng.below(3)) % R); p.unsat(); p.tags.append("forged-output")
+                        out.append(p.case())
+    return out
+
+
+def cases(rng, n):
+    out = constant_operand_cases(rng)
     for i in range(n):
         g = GENS[i % len(GENS)]
         out.append(g(rng).case())
